@@ -74,6 +74,10 @@ impl TypeChecker {
     ///
     /// Returns [`Err`] if the engine's execution fails for any reason.
     pub fn run(&mut self, execution_result: ExecutionResult) -> Result<StorageLayout> {
+        // Each run describes the provided `execution_result` only, so nothing that a
+        // previous run has registered may take part in it.
+        self.state = TypeCheckerState::empty();
+
         let transformed_values = self.lift(execution_result)?;
         self.assign_vars(transformed_values)?;
         self.infer()?;
